@@ -182,6 +182,16 @@ def r3_server_push(ctx):
     data = t[3][2]
     okd = any(is_call_term(s, "PaddingFactory::raw_scheme") for s in subterms(data))
     ctx.ob("R19.3", "Settings-arm:pushes-raw-scheme", okd, c.site, "the frame carries raw_scheme() of the server's scheme" if okd else "the pushed payload is %s" % fmt(data)[:80])
+    # ... byte for byte: the client computes the md5 it will announce from the bytes it receives, the server compares it with
+    # the md5 of raw_scheme(); any transformation on the way (a text round trip, trimming) makes the two differ for some scheme
+    # file and the scheme is pushed again on every session for the life of the process
+    COPY = ("PaddingFactory::raw_scheme", "Bytes::copy_from_slice", "Bytes::from", "::to_vec", "::clone", "::deref", "::into", "::from", "::as_ref", "::as_slice", "::borrow", "::to_owned",
+            "RwLock::read", "RwLock::<T>::read", "Mutex::lock", "Mutex::<T>::lock", "BytesMut::freeze", "Bytes::from_owner")
+    other = [s_ for s_ in subterms(data) if isinstance(s_, tuple) and s_ and s_[0] == "call" and not is_call_term(s_, *COPY)]
+    if okd:
+        ctx.ob("R19.3", "Settings-arm:pushed-bytes-are-raw-scheme-unchanged", not other, c.site, "raw_scheme() reaches the frame through copies only" if not other else
+               "the pushed payload is raw_scheme() passed through `%s`: for a scheme file that this does not map to itself (e.g. a non-UTF-8 comment byte through from_utf8_lossy) the client installs and announces the md5 "
+               "of different bytes than the server hashes, the server never recognises it and pushes the scheme again on every new session" % other[0][1].split("::")[-1])
 
 
 def r4_r5_client_adopts(ctx):
@@ -342,6 +352,8 @@ def run(ctx):
     from . import effects
     effects.check_property(ctx, "C19")    # R19.E: no operation on shared protocol state outside the reviewed table
     from . import C05
+    from . import C20 as _C20s
+    _C20s.r17_panicking_index_methods(ctx, _C20s.input_reachable(ctx))   # a pushed scheme that does not parse is refused with an error value: quoting it in the message cannot panic the receive task
     r7_scheme_identity(ctx)
     r8_announced_md5_is_the_sessions_own(ctx)
     r9_settings_text_codec_siblings(ctx)
